@@ -1,6 +1,7 @@
 package main
 
 import (
+	"go/types"
 	"fmt"
 	"go/token"
 	"strings"
@@ -427,6 +428,9 @@ func ruleC12(w *World, r *Report) {
 
 	// ---------- R12.6
 	ruleC12Assoc(w, r, assocHandler, assocIEs)
+	ruleC12NewPeers(w, r)
+	ruleC12ResetConsumers(w, r)
+	ruleC12Connected(w, r)
 }
 
 func isTypeAssertOK(v ssa.Value) bool {
@@ -728,3 +732,203 @@ func ruleC12Assoc(w *World, r *Report, h, ies *ssa.Function) {
 }
 
 func derefArrayLen(t interface{ String() string }) int64 { return -1 }
+
+
+// ruleC12NewPeers: every datagram from an address without a connection creates one and is handled —
+// whatever its type (a Heartbeat Request is answered before any association exists).
+func ruleC12NewPeers(w *World, r *Report) {
+	const P = "C12"
+	f := w.Fn(P, "pfcpiface.(*PFCPNode).handleNewPeers")
+	fn := w.FuncName(f)
+	nc := w.Fn(P, "pfcpiface.(*PFCPNode).NewPFCPConn")
+	var read *ssa.Call
+	var load *ssa.Call
+	allInstrs(f, func(i ssa.Instruction) {
+		c, ok := i.(*ssa.Call)
+		if !ok {
+			return
+		}
+		if c.Call.IsInvoke() && c.Call.Method.Name() == "ReadFrom" {
+			read = c
+		}
+		if strings.HasSuffix(calleeName(c), "sync.Map).Load") {
+			load = c
+		}
+	})
+	calls := callsTo(f, nc)
+	if read == nil || load == nil || len(calls) != 1 {
+		r.bad("R12.7", fn, "read, look up, create", w.Pos(f.Pos()), "handleNewPeers no longer reads a datagram, looks the peer up and creates a connection")
+		return
+	}
+	create := calls[0].(ssa.Instruction)
+	// from the read, the next read is reachable without the create only through "read failed" or "connection exists"
+	ev := errResult(read)
+	found := extractOf(load, 1)
+	hit := reach(f, read, func(i ssa.Instruction) bool { return i == ssa.Instruction(read) || isReturn(i) }, func(i ssa.Instruction) bool { return i == create }, func(a, b *ssa.BasicBlock) bool {
+		if nilnessEdge(a, b, func(x ssa.Value) bool { return x == ev }, false) {
+			return true
+		}
+		v, truth, ok := boolEdge(a, b)
+		return ok && truth && v == found
+	})
+	r.check(hit == nil, "R12.7", fn, "a datagram from a peer without a connection always creates one (no filtering by content)", w.Pos(create.Pos()), "only a read error or an existing connection skips NewPFCPConn", "a datagram from a new peer can be skipped for another reason (e.g. its message type): a Heartbeat Request that arrives before any association is never answered")
+	// the datagram handed over is the one read, in full
+	okB := false
+	if sl, ok := create.(*ssa.Call).Call.Args[3].(*ssa.Slice); ok {
+		okB = sl.X == read.Call.Args[0] && sl.Low == nil && sl.High == extractOf(read, 0)
+	}
+	r.check(okB, "R12.7", fn, "the new connection gets the datagram that was read", w.Pos(create.Pos()), "buf[:n] of ReadFrom(buf)", "NewPFCPConn is not given buf[:n] of the datagram just read")
+	// and NewPFCPConn dispatches it
+	disp := w.Fn(P, "pfcpiface.(*PFCPConn).HandlePFCPMsg")
+	d := callsTo(nc, disp)
+	okD := len(d) == 1
+	if okD {
+		okD = onlyVia(nc, d[0].(ssa.Instruction), func(a, b *ssa.BasicBlock) bool {
+			return nilnessEdge(a, b, func(x ssa.Value) bool { return x == ssa.Value(nc.Params[3]) }, false)
+		}) && d[0].Common().Args[1] == ssa.Value(nc.Params[3])
+	}
+	r.check(okD, "R12.7", w.FuncName(nc), "the first datagram is dispatched like any other", w.Pos(nc.Pos()), "HandlePFCPMsg(buf) whenever buf != nil", "the first datagram of a new peer is not (always) handed to HandlePFCPMsg")
+}
+
+// ruleC12ResetConsumers: every reset signal taken from hbReset postpones the next heartbeat: a receive
+// on that channel is followed by Reset(hbInterval) of the monitor's ticker before the loop goes on.
+func ruleC12ResetConsumers(w *World, r *Report) {
+	const P = "C12"
+	n := 0
+	for _, f := range w.Funcs {
+		if strings.HasPrefix(w.FuncName(f), "test/") {
+			continue
+		}
+		f := f
+		isReset := func(i ssa.Instruction) bool {
+			c, ok := i.(*ssa.Call)
+			return ok && strings.HasSuffix(calleeName(c), "time.Ticker).Reset")
+		}
+		check := func(at ssa.Instruction, start *ssa.BasicBlock) {
+			n++
+			// from the point where the signal was taken, the next blocking select / return is reached only through Reset
+			var from ssa.Instruction = at
+			if start != nil {
+				from = firstInstr(start)
+			}
+			hit := reach(f, from, func(i ssa.Instruction) bool {
+				if i == at {
+					return false
+				}
+				if s, ok := i.(*ssa.Select); ok && s.Blocking {
+					return true
+				}
+				return isReturn(i)
+			}, isReset, nil)
+			inStart := false
+			if start != nil {
+				for _, i := range start.Instrs {
+					if isReset(i) {
+						inStart = true
+					}
+				}
+			}
+			r.check(hit == nil || inStart, "R12.5", w.FuncName(f), fmt.Sprintf("reset signal #%d taken from hbReset postpones the next heartbeat", n), w.Pos(at.Pos()), "Reset(hbInterval) follows", "a reset signal is consumed from hbReset without resetting the ticker: a peer heartbeat that arrives while the agent's own exchange is in flight no longer postpones the agent's next heartbeat")
+		}
+		allInstrs(f, func(i ssa.Instruction) {
+			switch x := i.(type) {
+			case *ssa.UnOp:
+				if x.Op == token.ARROW && chanFieldOf(x.X) == "PFCPConn.hbReset" {
+					check(i, nil)
+				}
+			case *ssa.Select:
+				for k, st := range x.States {
+					if st.Dir != types.RecvOnly || chanFieldOf(st.Chan) != "PFCPConn.hbReset" {
+						continue
+					}
+					// the block selected for case k
+					idx := extractOf(x, 0)
+					for _, b := range f.Blocks {
+						for _, sc := range b.Succs {
+							xx, op, y, ok := edgeFact(b, sc)
+							if c, isK := constInt(y); ok && xx == idx && op == token.EQL && isK && int(c) == k {
+								check(i, sc)
+							}
+						}
+					}
+				}
+			}
+		})
+	}
+	r.floor("R12.5 consumers of hbReset", n, 1)
+}
+
+// ruleC12Connected: "connected" means the gRPC channel is READY (BESS) / the P4Runtime client exists,
+// is marked connected and READY (UP4) — nothing weaker.
+func ruleC12Connected(w *World, r *Report) {
+	const P = "C12"
+	ready := int64(2) // google.golang.org/grpc/connectivity.Ready
+	if v := w.importedConst("google.golang.org/grpc/connectivity", "Ready"); v != nil {
+		ready = *v
+	}
+	for _, name := range []string{"pfcpiface.(*bess).IsConnected", "pfcpiface.(*UP4).IsConnected"} {
+		f := w.Fn(P, name)
+		n := 0
+		for k, ret := range returnsOf(f) {
+			v := resolveIfConst(res(ret, 0))
+			if c, isK := constBool(v); isK && !c {
+				continue
+			}
+			n++
+			// a true (or computed) verdict is reachable only when the state compared equal to Ready
+			stateOK := func(x, y ssa.Value, op token.Token) bool {
+				c, isCall := x.(*ssa.Call)
+				if !isCall {
+					return false
+				}
+				nm := calleeName(c)
+				if !(strings.HasSuffix(nm, ").GetState") || strings.HasSuffix(nm, ").CheckStatus")) {
+					return false
+				}
+				k, isK := constInt(y)
+				return isK && k == ready && op == token.EQL
+			}
+			viaEdge := onlyVia(f, ret, func(a, b *ssa.BasicBlock) bool {
+				x, op, y, ok := edgeFact(a, b)
+				return ok && stateOK(x, y, op)
+			})
+			// or the returned value itself is the comparison state == Ready (possibly and-ed with other conditions)
+			direct := false
+			var walk func(v ssa.Value, d int)
+			walk = func(v ssa.Value, d int) {
+				if d > 6 {
+					return
+				}
+				switch x := v.(type) {
+				case *ssa.BinOp:
+					if x.Op == token.EQL && stateOK(x.X, x.Y, token.EQL) {
+						direct = true
+					}
+				case *ssa.Phi:
+					// short-circuit &&: every non-false edge must be the state comparison
+					all := true
+					for _, e := range x.Edges {
+						if c, isK := constBool(e); isK && !c {
+							continue
+						}
+						sub := false
+						if bo, ok := e.(*ssa.BinOp); ok && bo.Op == token.EQL && stateOK(bo.X, bo.Y, token.EQL) {
+							sub = true
+						}
+						if !sub {
+							all = false
+						}
+					}
+					if all && len(x.Edges) > 0 {
+						direct = true
+					}
+				}
+			}
+			walk(res(ret, 0), 0)
+			r.check(viaEdge || direct, "R12.6", w.FuncName(f), fmt.Sprintf("return #%d: connected only when the channel state is READY", k+1), w.Pos(ret.Pos()), "state == connectivity.Ready", f.Name()+" can report 'connected' in a channel state other than READY (IDLE is also where a channel sits after it lost its connection): an Association Setup Request is accepted while the datapath is gone")
+		}
+		r.floor("R12.6 positive verdicts of "+name, n, 1)
+	}
+}
+
+func resolveIfConst(v ssa.Value) ssa.Value { return v }
